@@ -981,7 +981,11 @@ fn write_evidence(
     });
     let dir = root.join("evidence");
     let _ = std::fs::create_dir_all(&dir);
-    let path = dir.join(format!("{}.json", check.id));
+    // (VERIF_EVIDENCE_VARIANT: a secondary run of the same property in another build configuration keeps its own file)
+    let path = match std::env::var("VERIF_EVIDENCE_VARIANT") {
+        Ok(v) if !v.is_empty() => dir.join(format!("{}.{}.json", check.id, v)),
+        _ => dir.join(format!("{}.json", check.id)),
+    };
     std::fs::write(&path, serde_json::to_string_pretty(&ev).unwrap()).expect("cannot write evidence file");
 }
 
